@@ -1263,6 +1263,9 @@ func (db *DB) lockExec(ctx context.Context) error {
 	if err := db.execSem.Acquire(ctx, 1); err != nil {
 		return fmt.Errorf("wait for db sync executor: %w", context.Cause(ctx))
 	}
+	if verifEnabled {
+		verifTrace("exec.acquired", db.path)
+	}
 	return nil
 }
 
